@@ -102,3 +102,26 @@ PROPS["C03"] = dict(
     min_nontrivial=dict(quick=300, thorough=20000),
     stages=[dict(name="exact", target="exact", quick=dict(cases=200, maxsize=70, timeout=2400), thorough=dict(cases=4000, maxsize=100))],
 )
+
+PROPS["C16"] = dict(
+    level="exploration",
+    rule=("fault enumeration: planted LP (optimal / infeasible / unbounded / both) x algorithm x representation x simplifier "
+          "(x scaler, persistent scaling, seed); the reference solve gives N iterations; then a FRESH solver is stopped at EVERY "
+          "iteration limit k = 0..N (<= 80 stratified when N > 80), at every output line k of the solve log (interrupt flag raised by "
+          "a counting stream buffer, DISPLAYFREQ 1), with TIMELIMIT 0 and 1e-9, and with OBJLIMIT_LOWER / OBJLIMIT_UPPER at "
+          "z +- 0.5, z +- (1 + 1e-3|z|). Oracle per stop point: status is the abort status of that limit or a verdict that equals the "
+          "planted class (OPTIMAL additionally passes the exact certificate oracle), iterations <= k, the basis has exactly m basic "
+          "variables and bound-consistent nonbasic statuses; ABORT_VALUE only if the planted optimum lies beyond the limit in the "
+          "direction of optimisation; after lifting the limit the same object reaches the class of the uninterrupted solve and an "
+          "optimum passing the certificate oracle against the planted value. Stage 'exact' does the same for SOLVEMODE_RATIONAL "
+          "(iteration limit, REFLIMIT, STALLREFLIMIT 0..R+1, interrupt, TIMELIMIT 0) with the certificate oracle at tolerance 0. "
+          "non-trivial = at least one stop point really aborted and N >= 1; distinct = case text. evaluations = LP x configuration "
+          "cases; stop points are counted in classes stop.* / aborted.*"),
+    assumptions=["interrupt and time limit both report ABORT_TIME (SPxSolverBase::solve sets ABORT_TIME when *interrupt is set)",
+                 "the exact solver ignores the interrupt pointer (observed: 0 aborts in 1500 interrupt points); the stage still checks "
+                 "that whatever it returns is true",
+                 "reference solves that end without a verdict are C01/C03's business and are skipped here (counted)"],
+    min_nontrivial=dict(quick=600, thorough=20000),
+    stages=[dict(name="float", target="c16", quick=dict(cases=800, maxsize=80), thorough=dict(cases=4000, maxsize=100)),
+            dict(name="exact", target="c16", x=dict(mode="exact"), quick=dict(cases=50, maxsize=70, timeout=2400), thorough=dict(cases=300, maxsize=100))],
+)
